@@ -11,7 +11,7 @@ class _RL(dict):
 UNIT_RLIMIT = _RL({"div_small": 80, "mul_redc": 80})      # unit -> --rlimit (Verus default is 10; 5x head-room over the measured maximum)
 UNIT_TIMEOUT = {"knuth": 1500, "addmul": 900, "mul_redc": 1200}     # unit -> seconds
 UNIT_EXPECT = {       # unit -> minimum number of verified functions on the unchanged tree (vacuity guard)
-    "core": 31, "add": 29, "kernels": 79, "addmul": 71, "addmul_n": 73, "mul": 51, "divd": 45, "div_small": 235, "knuth": 145, "mul_redc": 126, "basics": 22, "pow": 38, "divw": 54, "modular": 70, "spigot": 44, "gcd": 24, "forward": 57, "invring": 47, "bitlen": 81, "shifts": 131, "recip_table": 2, "gcdext": 67, "gcdw": 36, "bits": 78, "conv": 44, "lehmer": 38, "jebelean": 92, "logs": 27, "forward_shift": 81, "fmt_consts": 5, "rotate": 27, "popcount": 29, "conv_slice": 54,
+    "core": 31, "add": 29, "kernels": 79, "addmul": 71, "addmul_n": 73, "mul": 51, "divd": 45, "div_small": 235, "knuth": 145, "mul_redc": 126, "basics": 22, "pow": 38, "divw": 54, "modular": 70, "spigot": 44, "gcd": 24, "forward": 57, "invring": 47, "bitlen": 81, "shifts": 131, "recip_table": 2, "gcdext": 67, "gcdw": 36, "bits": 78, "conv": 44, "lehmer": 38, "jebelean": 92, "logs": 27, "forward_shift": 81, "fmt_consts": 5, "rotate": 27, "popcount": 29, "conv_slice": 54, "conv_prim": 53,
 }
 
 COMMON_TRUST = [
@@ -173,18 +173,23 @@ PROPS = {
                    "funnels into - TryFrom<u64> and TryFrom<u128>: Ok(v) exactly when v < 2^BITS, else ValueTooLarge(BITS, v mod 2^BITS) (incl. the one-limb, two-limb and BITS = 0 special cases) - const_from_u64, and in the other direction TryFrom<&Uint> for u64 (the to_int! expansion) and for u128: Ok(value) exactly when it fits, else Overflow(BITS, value mod 2^64 resp. 2^128, MAX); "
                    "and the limb-slice constructors for slices of ANY length - overflowing_from_limbs_slice returns (value mod 2^BITS, value >= 2^BITS) for the number the slice denotes, "
                    "from_limbs_slice / checked_ / wrapping_ / saturating_from_limbs_slice follow - with the Uint-to-Uint conversions built on them for ALL pairs of widths "
-                   "(UintTryFrom<Uint>: Ok(v) iff v < 2^BITS else ValueTooLarge(BITS, v mod 2^BITS); UintTryTo<Uint>: Overflow(BITS_DST, v mod 2^BITS_DST, MAX); from_uint, checked_from_uint)",
-        level_note="all-widths proof for TryFrom<u64>/<u128>/const_from_u64, Uint -> u64/u128, the limb-slice constructors and Uint-to-Uint (the macro-generated impls for the other primitive types and the signed cases are Kani per width, 10 widths); "
+                   "(UintTryFrom<Uint>: Ok(v) iff v < 2^BITS else ValueTooLarge(BITS, v mod 2^BITS); UintTryTo<Uint>: Overflow(BITS_DST, v mod 2^BITS_DST, MAX); from_uint, checked_from_uint); "
+                   "and every macro-generated primitive conversion, extracted from the macro expansion (unit conv_prim): TryFrom<bool/u8/u16/u32/usize> (forwarders), "
+                   "TryFrom<i8/i16/i32/i64/i128/isize> (non-negative: as unsigned; negative: ValueNegative(BITS, two's-complement image mod 2^BITS)), "
+                   "TryFrom<&Uint> for u8/u16/u32/usize/i8/i16/i32/i64/isize (Ok(value) iff value < 2^capacity, else Overflow(BITS, low limb truncated to the type, MAX))",
+        level_note="all-widths proof for every primitive integer type in both directions except Uint -> bool and Uint -> i128 (Kani per width), the limb-slice constructors and Uint-to-Uint; "
+                   "the generic entry points from / wrapping_from / saturating_from / to / wrapping_to / saturating_to dispatch through the UintTryFrom / UintTryTo traits on a type parameter and are Kani per width (10 widths); "
+                   "ASSUMED in unit conv_prim: iN::is_negative (Kani core_specs, full domain); declared rewrites there: callee named by its impl, `#[verifier::truncate]` added to the truncating `as` casts (Rust's semantics of `as`), the two associated consts of to_int! inlined; "
                    "ASSUMED in unit conv_slice: std's copy_from_slice / split_at / Iterator::any through N14 wrappers (Kani core_specs, lengths <= 6); "
                    "declared rewrites in TryFrom<u128>: Self::try_from(value as u64) is named by its impl, `.and_then(|n| Err(..))` is replaced by its definition (closures over Result are outside the Verus subset); "
                    "limb slices longer than LIMBS+2 not covered; "
                    "should_panic harnesses prove that the panic is reachable and nothing else fails (plus an unreachable end-of-harness cover), not a universally quantified 'always panics'",
         technique="Kani contract harnesses (pre/postconditions on the compiled crate), complete per width; native replay of counterexamples; deductive contracts (Verus, all widths) for the u64/u128 base cases",
-        units=["core", "basics", "bitlen", "conv", "conv_slice"],
+        units=["core", "basics", "bitlen", "conv", "conv_slice", "conv_prim"],
         kani=dict(
             features=None,
-            quick=hs("c07", r"_w(0|1|60|64|65|128)$|_uint_|_must_panic$") + hs("core_specs", r"slice_ctor"),
-            thorough=hs("c07") + hs("core_specs", r"slice_ctor"),
+            quick=hs("c07", r"_w(0|1|60|64|65|128)$|_uint_|_must_panic$") + hs("core_specs", r"slice_ctor|is_negative"),
+            thorough=hs("c07") + hs("core_specs", r"slice_ctor|is_negative"),
             bounds="widths 0,1,8,60,64,65,100,128,129,192; slices of length 0..LIMBS+2",
         ),
         explanation="harness-level contracts: assume(type invariant), call, assert(postcondition from the property statement) against a u128 / limb-loop oracle",
